@@ -103,3 +103,40 @@ Example valid_nonvacuous :
   g_valid [sT1; sT2] [SAssign sA (Sym sT1); SAssign sA (Add (Sym sA) (Num 1)); SAssign sT1 (Num 3);
                       SAssign sB (Sym sA); SAssign sA (Num 0)] = false.
 Proof. repeat split; vm_compute; reflexivity. Qed.
+
+(* mu_reference_model on TVCL = TH1*W ; CL = TVCL*exp(ETA) ; Y = CL + CL*E1 with sympy's answer for statement 1 *)
+Definition sMU1 : id := 40%positive.
+Definition mu_prog : list stm :=
+  [SAssign sTVV (Mul (Sym sT1) (Sym sW)); SAssign sV (Mul (Sym sTVV) (Fn1 F_EXP (Sym sETA)));
+   SAssign sY (Add (Sym sV) (Mul (Sym sV) (Sym sE1)))].
+Definition mu_table : list (nat * (expr * expr)) :=
+  [(1%nat, (Fn1 F_LOG (Sym sTVV), Fn1 F_EXP (Add (Sym sMU1) (Sym sETA))))].
+Example mu_reference_nonvacuous :
+  find_eta_assignments [sETA] mu_prog = [1%nat] /\
+  mu_reference [(sETA, sMU1)] mu_table mu_prog =
+    Some [SAssign sTVV (Mul (Sym sT1) (Sym sW)); SAssign sMU1 (Fn1 F_LOG (Sym sTVV));
+          SAssign sV (Fn1 F_EXP (Add (Sym sMU1) (Sym sETA))); SAssign sY (Add (Sym sV) (Mul (Sym sV) (Sym sE1)))] /\
+  g_mu_fresh [(sETA, sMU1)] mu_table [1%nat] mu_prog = true /\
+  inserted_mus [(sETA, sMU1)] mu_table [1%nat] mu_prog 0 = [sMU1] /\
+  (* in the exact interpretation at T1 = 2, W = 4, ETA = 1: mu = 3 is defined and V = 16 before and after *)
+  sexec std_fi std_ode (env_of [(sT1, 2); (sW, 4); (sETA, 1); (sE1, 0)]%Q) mu_prog sV = Some 16%Q /\
+  match mu_reference [(sETA, sMU1)] mu_table mu_prog with
+  | Some out => sexec std_fi std_ode (env_of [(sT1, 2); (sW, 4); (sETA, 1); (sE1, 0)]%Q) out sV = Some 16%Q /\
+                sexec std_fi std_ode (env_of [(sT1, 2); (sW, 4); (sETA, 1); (sE1, 0)]%Q) out sMU1 = Some 3%Q
+  | None => False end /\
+  (* a statement with two etas, or one that depends on another eta-parameter, is not selected *)
+  find_eta_assignments [sETA; sETA2]
+    [SAssign sV (Mul (Sym sT1) (Fn1 F_EXP (Sym sETA))); SAssign sS1 (Mul (Sym sV) (Fn1 F_EXP (Sym sETA2)))] = [0%nat].
+Proof. repeat split; vm_compute; reflexivity. Qed.
+
+(* greekify's table for thetas [T1; T2], covariance matrix diag(OM, OM2, N2 (sigma)), etas [ETA; ETA2], eps [E1]:
+   the omegas end up with the sigma_<r><c> names (the second loop of the code overwrites the first) *)
+Example greek_table_nonvacuous :
+  let tn := fun i => Pos.of_nat (100 + i) in let en := fun i => Pos.of_nat (200 + i) in
+  let pn := fun i => Pos.of_nat (300 + i) in
+  let on := fun r c => Pos.of_nat (400 + 10 * r + c) in let sn := fun r c => Pos.of_nat (500 + 10 * r + c) in
+  let d := greek_table tn en pn on sn [sT1; sT2] [(1, 1, sOM); (2, 2, sOM2); (3, 3, sN2)]%nat [sETA; sETA2] [sE1] in
+  ren d sT2 = 102%positive /\ ren d sOM = 511%positive /\ ren d sN2 = 533%positive /\ ren d sETA2 = 202%positive /\
+  ren d sE1 = 301%positive /\ ren d sW = sW /\
+  g_rename_ok d [sOM; sOM2; sN2] pheno_prog = true.
+Proof. repeat split; vm_compute; reflexivity. Qed.
